@@ -53,6 +53,12 @@ func (fx *FnExec) run() (err error) {
 					fx.names[obj.Name()] = append(fx.names[obj.Name()], d.X)
 				}
 			}
+			// an address-taken local: its name denotes the pointer to its cell (use *local(x) in contracts)
+			if a, ok := in.(*ssa.Alloc); ok && a.Comment != "" && a.Comment != "varargs" && a.Comment != "slicelit" && a.Comment != "complit" {
+				if _, have := fx.names[a.Comment]; !have {
+					fx.names[a.Comment] = append(fx.names[a.Comment], a)
+				}
+			}
 		}
 	}
 	fx.cur = fx.entry.clone()
